@@ -2,7 +2,12 @@
     Proved once over the block-program type from two per-executor obligations. Core Lean only. -/
 namespace Ttl
 abbrev Key := List UInt8
-abbrev Val := Nat          -- placeholder for the value type
+/-- the value kinds (only what the sketches need; the framework has all six) -/
+inductive Val
+| str  (b : List UInt8)
+| list (l : List (List UInt8))
+| other (tag : Nat)
+deriving DecidableEq
 
 structure Db where
   kv  : Key → Option Val
